@@ -80,6 +80,62 @@ var declTexts = []string{
 	"func sel%d(c chan int) { select { case <-c: default: } }\n",
 }
 
+// ---- very long source lines ----
+//
+// A generator that embeds a schema, an asset or a table renders single source lines of tens or hundreds of KiB.
+// The property's clause "contains the declarations the generator rendered, in order" has no size limit, while
+// line-oriented readers do (bufio.Reader.ReadLine: 4096, bufio.Scanner: 65536 unless given a buffer).  One long-line
+// declaration = a kind (where the long line sits) and the length of that line in bytes, newline excluded.
+
+var longKinds = []string{"string_var", "comment_line", "byte_slice", "raw_string_line", "struct_tag", "one_line_func", "block_comment_line"}
+
+// lengths around the limits of the standard line readers, and well beyond
+var longLens = []int{4095, 4096, 4097, 8200, 65535, 65536, 65537, 70000, 131073, 200000}
+
+const longLenHuge = 1<<20 + 5 // thorough only
+
+var longUnits = []string{"a", "x", "0123456789", "ab ", "é"}
+
+func fill(unit string, n int) string {
+	if n <= 0 {
+		return ""
+	}
+	k := n / len(unit)
+	return strings.Repeat(unit, k) + strings.Repeat("_", n-k*len(unit))
+}
+
+// longLineDecl: a declaration text one of whose lines is exactly n bytes long (n >= 64)
+func longLineDecl(kind string, n int, unit string, c *ctr) string {
+	c.n++
+	id := fmt.Sprint(c.n)
+	switch kind {
+	case "string_var":
+		pre, post := "var Spec"+id+" = \"", "\""
+		return pre + fill(unit, n-len(pre)-len(post)) + post + "\n"
+	case "comment_line":
+		pre := "// asset" + id + " "
+		return pre + fill(unit, n-len(pre)) + "\n\n"
+	case "byte_slice":
+		pre, post := "var Bytes"+id+" = []byte{", "1}"
+		return pre + fill("1, ", (n-len(pre)-len(post))/3*3) + post + strings.Repeat(" ", (n-len(pre)-len(post))%3) + "\n"
+	case "raw_string_line":
+		return "const Raw" + id + " = `first\n" + fill(unit, n) + "\nlast`\n"
+	case "struct_tag":
+		pre, post := "\tA int `doc:\"", "\"`"
+		return "type Tagged" + id + " struct {\n" + pre + fill(unit, n-len(pre)-len(post)) + post + "\n}\n"
+	case "one_line_func":
+		pre, post := "func Long"+id+"() string { return \"", "\" }"
+		return pre + fill(unit, n-len(pre)-len(post)) + post + "\n"
+	case "block_comment_line":
+		return "/* table" + id + "\n" + fill(unit, n) + "\n*/\n\n"
+	}
+	panic("c01: unknown long-line kind " + kind)
+}
+
+func genLongSnip(r *core.RNG, c *ctr) Snip {
+	return block(longLineDecl(core.Pick(r, longKinds), core.Pick(r, longLens), core.Pick(r, longUnits), c))
+}
+
 // bodies that make the assembled file unparseable (Execute must fail, nothing is claimed about the file)
 var malformedTexts = []string{
 	"func {\n", "}\n", "var = 1\n", "x := 1\n", "func f%d() {\n", "\"unterminated\n", "package q\n", "func f%d() {}}\n",
@@ -124,6 +180,9 @@ func genRef(r *core.RNG, in *Input) string {
 	case k < 8:
 		return core.Pick(r, extRefs)
 	case k < 9:
+		if in.Mod2 != nil && r.Bool() {
+			return in.Mod2.ModPath + "/sub/dep.Thing"
+		}
 		return in.ModPath + "/sub/dep.Thing" // a package of the module itself: gofumpt's ModulePath decides its import group
 	default:
 		p := in.ModPath
@@ -183,8 +242,67 @@ func genModule(r *core.RNG) Input {
 	return in
 }
 
+const longChance = 5
+
+// modPaths2 / goVers2: second modules.  Dot-less paths sort before and after the usual first-module paths (packages are
+// processed in sorted import-path order); go directives include pre-1.13 ones (no 0o literals) and pre-generics ones.
+var modPaths2 = []string{"m2", "a2", "zlib", "example.net/two", "b.example/x", "github.com/acme/other", "m2/v3"}
+var goVers2 = []string{"1.11", "1.12", "1.12", "1.13", "1.16", "1.17", "1.18", "1.20", "1.21", "1.22", "1.23", "1.24.2"}
+
+func twoModuleSnips(c *ctr, in *Input) []Snip {
+	c.n += 2
+	refs := []Snip{{K: "id", S: []byte("fmt.Stringer")}, {K: "id", S: []byte(in.ModPath + "/sub/dep.Thing")}, {K: "id", S: []byte("github.com/x/y/v2.Z")}}
+	tmpl := "var ma%d @a0\nvar mb%d @a1\nvar mc%d @a2\n"
+	if in.Mod2 != nil {
+		refs = append(refs, Snip{K: "id", S: []byte(in.Mod2.ModPath + "/other.X")})
+		tmpl += "var md%d @a3\n"
+	}
+	return []Snip{
+		{K: "t", S: []byte(strings.ReplaceAll(tmpl, "%d", fmt.Sprint(c.n))), Sub: refs},
+		block(fmt.Sprintf("var oct%d = []int{0644, 0o755, 0X1F}\n", c.n+1)),
+	}
+}
+
+func goVerLess(a, b string) bool {
+	pa, pb := strings.Split(a, "."), strings.Split(b, ".")
+	for i := 0; i < 3; i++ {
+		x, y := 0, 0
+		if i < len(pa) {
+			fmt.Sscan(pa[i], &x)
+		}
+		if i < len(pb) {
+			fmt.Sscan(pb[i], &y)
+		}
+		if x != y {
+			return x < y
+		}
+	}
+	return false
+}
+
+func genMod2(r *core.RNG, in *Input) {
+	for {
+		m := &Module{ModPath: core.Pick(r, modPaths2), GoVer: core.Pick(r, goVers2), Dir: core.Pick(r, dirs), PkgName: core.Pick(r, pkgNames)}
+		// the go command raises the main module's go directive to that of its dependencies (go >= 1.21, -mod=mod):
+		// the second module is never newer than the first
+		if r.Chance(40) || goVerLess(in.GoVer, m.GoVer) {
+			m.GoVer = in.GoVer // same language version: only the module path differs
+		}
+		if m.ModPath == in.ModPath || strings.HasPrefix(m.ModPath+"/", in.ModPath+"/") || strings.HasPrefix(in.ModPath+"/", m.ModPath+"/") {
+			continue
+		}
+		m.Types = []string{"A", "B", "C"}[:1+r.Intn(3)]
+		in.Mod2 = m
+		return
+	}
+}
+
 func genCase(r *core.RNG, malformed bool) Input {
 	in := genModule(r)
+	if r.Chance(12) {
+		genMod2(r, &in)
+		in.All = false
+	}
 	c := &ctr{}
 	ng := 1 + r.Intn(3)
 	names := append([]string(nil), genNames...)
@@ -209,6 +327,17 @@ func genCase(r *core.RNG, malformed bool) Input {
 				k := r.Intn(len(in.Types))
 				g.Calls[k] = append(g.Calls[k], s)
 			}
+		}
+		if r.Chance(longChance) { // one very long source line somewhere in this generator's output
+			k := r.Intn(len(in.Types))
+			pos := r.Intn(len(g.Calls[k]) + 1)
+			g.Calls[k] = append(g.Calls[k][:pos:pos], append([]Snip{genLongSnip(r, c)}, g.Calls[k][pos:]...)...)
+		}
+		if in.Mod2 != nil && r.Chance(70) {
+			// what makes the two modules format differently: imports of std + both modules' own packages (grouping
+			// depends on ModulePath), and old-style octal literals (rewritten to 0o only from go 1.13 on)
+			k := r.Intn(len(in.Types))
+			g.Calls[k] = append(g.Calls[k], twoModuleSnips(c, &in)[r.Intn(2)])
 		}
 		if malformed && gi == badGen {
 			s := block(c.text(core.Pick(r, malformedTexts)))
@@ -243,7 +372,30 @@ func fixedCases() []Input {
 			Snip{K: "t", S: []byte("var a @a0\nvar b @a1\nvar c @a2\n"), Sub: []Snip{{K: "id", S: []byte("bytes.Buffer")}, {K: "id", S: []byte("m/sub/dep.Thing")}, {K: "id", S: []byte("github.com/x/y/v2.Z")}}}),
 		one("x", nil, block("import \"unsafe\"\n"), block("var p unsafe.Pointer\n")), // the body brings its own import declaration
 		one("x", nil, block("func f() {")),                                           // malformed
+		// very long source lines (see longLineDecl): the declarations before, at and after the line must all arrive
+		one("x", nil, block("func Before() {}\n"), block(longLineDecl("string_var", 70000, "a", &ctr{})), block("func After() {}\n")),
+		one("x", nil, block("var before = 1\n"), block(longLineDecl("comment_line", 65536, "ab ", &ctr{})), block("var after = 2\n")),
+		one("x", nil, block("type Before int\n"), block(longLineDecl("byte_slice", 4097, "", &ctr{})), block("type After int\n")),
+		one("x", nil, block(longLineDecl("raw_string_line", 200000, "0123456789", &ctr{})), block("func After() {}\n")),
+		// ONE Execute over packages of TWO modules (the second reached through require + replace): every file is
+		// formatted for the module IT lies in.  Second module dot-less (its own packages are grouped apart from std,
+		// in the first module's file they look like std) sorting after / before the first; second module with an
+		// older go directive (0644 stays) sorting after / before; first module the old one.
+		two("example.com/m", "1.24.2", "m2", "1.24.2", 0),
+		two("example.com/m", "1.22", "a2", "1.22", 0),
+		two("example.com/m", "1.22", "example.net/two", "1.12", 1),
+		two("example.com/m", "1.22", "b.example/x", "1.11", 1),
+		two("my.mod/v2", "1.13", "zlib", "1.12", 1),
+		two("m", "1.18", "m2/v3", "1.18", 0),
 	}
+}
+
+func two(mod1, go1, mod2, go2 string, which int) Input {
+	in := Input{ModPath: mod1, GoVer: go1, Dir: "a", PkgName: "a", Types: []string{"A"}, Base: "zz_generated",
+		Mod2: &Module{ModPath: mod2, GoVer: go2, Dir: "b", PkgName: "b", Types: []string{"B"}}}
+	sn := twoModuleSnips(&ctr{}, &in)
+	in.Gens = []Gen{{Name: "x", Calls: [][]Snip{{block("func F() {}\n"), sn[which], sn[1-which]}}}}
+	return in
 }
 
 func (prop) Generate(r *core.RNG, tier string) []json.RawMessage {
@@ -259,6 +411,28 @@ func (prop) Generate(r *core.RNG, tier string) []json.RawMessage {
 		out = append(out, mkInput(genCase(r, r.Chance(10))))
 	}
 	if tier == "thorough" {
+		// every long-line kind at every length (and once beyond 1 MiB), between two ordinary declarations
+		lb := Input{ModPath: "example.com/m", GoVer: "1.22", Dir: "p", PkgName: "p", Types: []string{"A"}, Base: "zz_generated"}
+		hugeKind := r.Intn(len(longKinds))
+		for ki, kind := range longKinds {
+			for li, n := range append(append([]int(nil), longLens...), longLenHuge) {
+				if n == longLenHuge && ki != hugeKind {
+					continue
+				}
+				c := &ctr{}
+				in := lb
+				in.Gens = []Gen{{Name: "long", Calls: [][]Snip{{block("func Before() {}\n"), block(longLineDecl(kind, n, longUnits[(ki+li)%len(longUnits)], c)), block("func After() {}\n")}}}}
+				out = append(out, mkInput(in))
+			}
+		}
+		// every second-module path with an old and a new go directive, first module dotted / dot-less
+		for _, m2 := range modPaths2 {
+			for _, g2 := range []string{"1.12", "1.23"} {
+				for _, m1 := range []string{"example.com/m", "m"} {
+					out = append(out, mkInput(two(m1, "1.22", m2, g2, r.Intn(2))))
+				}
+			}
+		}
 		// small scope, exhaustively: every ordered pair of declaration texts as the body of one generator
 		// (neighbour-dependent formatting is where the formatter pipeline can miss its fixed point)
 		base := Input{ModPath: "example.com/m", GoVer: "1.22", Dir: "p", PkgName: "p", Types: []string{"A"}, Base: "zz_generated"}
@@ -315,6 +489,42 @@ func (prop) Shrink(raw json.RawMessage) []json.RawMessage {
 			l := c.Gens[gi].Defer
 			c.Gens[gi].Defer = append(l[:si:si], l[si+1:]...)
 			out = append(out, mkInput(c))
+		}
+	}
+	// one module only
+	if in.Mod2 != nil {
+		c := clone()
+		c.Mod2 = nil
+		out = append(out, mkInput(c))
+		if in.Mod2.Dir != "b" || in.Mod2.PkgName != "b" || len(in.Mod2.Types) > 1 {
+			c := clone()
+			c.Mod2.Dir, c.Mod2.PkgName, c.Mod2.Types = "b", "b", c.Mod2.Types[:1]
+			out = append(out, mkInput(c))
+		}
+	}
+	// shorter long lines: the longest periodic stretch of a block cut to half, and to just above the next lower
+	// line-reader limit
+	for gi := range in.Gens {
+		for ci := range in.Gens[gi].Calls {
+			for si, s := range in.Gens[gi].Calls[ci] {
+				if s.K != "block" || len(s.S) < 2048 {
+					continue
+				}
+				start, length, per := longestRun(string(s.S))
+				if length < 1024 {
+					continue
+				}
+				for _, keep := range []int{length / 2, 66000, 4200} {
+					keep = keep / per * per
+					if keep >= length || keep < 512 {
+						continue
+					}
+					c := clone()
+					t := string(s.S)
+					c.Gens[gi].Calls[ci][si].S = []byte(t[:start+keep] + t[start+length:])
+					out = append(out, mkInput(c))
+				}
+			}
 		}
 	}
 	// fewer types (calls of dropped types are folded into the first)
